@@ -73,12 +73,12 @@ where
                 #(#querier_methods_declaration)*
             }
 
-            impl <'a, SvCustomQueryT: #sylvia ::cw_std::CustomQuery, #(#all_generics,)*> Querier for #sylvia ::types::BoundQuerier<'a, SvCustomQueryT, dyn #interface_name <#( #all_generics = #all_generics,)*> > #where_clause {
+            impl <'a, SvCustomQueryT: #sylvia ::cw_std::CustomQuery, #(#all_generics,)*> self::Querier for #sylvia ::types::BoundQuerier<'a, SvCustomQueryT, dyn #interface_name <#( #all_generics = #all_generics,)*> > #where_clause {
                 #(type #generics = #generics;)*
                 #(#methods_trait_impl)*
             }
 
-            impl <'a, SvCustomQueryT: #sylvia ::cw_std::CustomQuery, Contract: #interface_name> Querier for #sylvia ::types::BoundQuerier<'a, SvCustomQueryT, Contract> {
+            impl <'a, SvCustomQueryT: #sylvia ::cw_std::CustomQuery, Contract: #interface_name> self::Querier for #sylvia ::types::BoundQuerier<'a, SvCustomQueryT, Contract> {
                 #(type #generics = <Contract as #interface_name > :: #generics;)*
                 #(#methods_trait_impl)*
             }
